@@ -17,7 +17,15 @@ import (
 	"time"
 )
 
-const VerifDir = "/verif"
+// VerifDir is the directory holding check, known_findings.json, py/ and harness/ (set by ./check).
+var VerifDir = verifDir()
+
+func verifDir() string {
+	if d := os.Getenv("VERIF_DIR"); d != "" {
+		return d
+	}
+	return "/verif"
+}
 
 // OutDir is where evidence and replay files are written: /verif, or $VERIF_OUT in self-test runs
 // against a scratch copy of the repository.
